@@ -138,7 +138,7 @@ func respelledTx(n *chainx.Node) ([]byte, error) {
 		alt := alts[0]
 		got, err := transaction.NewTransactionFromBytes(alt)
 		if err != nil {
-			return nil, err
+			return nil, nil // the entry path does not accept this spelling: nothing to pool
 		}
 		w := sigAcct(1).witness(magic, got) // signs got.Hash()
 		hp, _ := tx.EncodeHashableFields()
@@ -324,8 +324,11 @@ func (e *env) runBlocks() map[string]any {
 		}
 	}
 	// the respelled transaction: alone and together with ordinary ones
+	if resp == nil {
+		e.out("proposable", "respelled-tx-rejected-by-decoder")
+	}
 	for _, f := range fams {
-		if f.MaxTx != 3 || f.SizeSlack != 0 {
+		if f.MaxTx != 3 || f.SizeSlack != 0 || resp == nil {
 			continue
 		}
 		for _, s := range [][]int{{}, {1}, {1, 2}} {
